@@ -138,4 +138,10 @@ theorem isErrorResp_sound {r : Option Json} (h : isErrorResp r = true) :
   · exact ⟨_, rfl, h⟩
   · cases h
 
+/-- the unit of a message that consists of one request object -/
+theorem unitsOf_single (cfg : Config) (s : State) (c : Nat) (l : List (Bytes × Json)) (o : Oracle)
+    (h : (findPeer s.peers c).isNone = false) :
+    Unit.req (mkCtx s o) c (.obj l) ∈ unitsOf cfg s (.message c (some (.obj l)) o) := by
+  simp [unitsOf, h, msgUnits]
+
 end Cjet.Daemon.C08
